@@ -125,8 +125,11 @@ Judge_parse(e) ==
 (* ---- two circuits that must agree: round trips (C03, C15 writer) and fast-vs-full parser (C14) ----
    same name / inputs / outputs / blackbox instances with the same net on every pin; Kleene-equal function at every
    output and blackbox input pin over the common free signals (inputs and blackbox output pins, by name). *)
+\* the shared constant nodes are identified by what they are, not by their names
+TieRen(c, nm) == LET t == c.ty[Idx(c, nm)] IN
+                 IF t \in Consts /\ HasPrefix(nm, "tie") THEN "<const " \o t \o ">" ELSE nm
 PinNets(c) == { <<c.bbs[b].inst, c.bbs[b].type,
-                  {<<pn, FiNames(c, Idx(c, Pin(c.bbs[b].inst, pn)))>> : pn \in {x \in Range(c.bbs[b].ins) : HasName(c, Pin(c.bbs[b].inst, x))}},
+                  {<<pn, {TieRen(c, x) : x \in FiNames(c, Idx(c, Pin(c.bbs[b].inst, pn)))}>> : pn \in {x \in Range(c.bbs[b].ins) : HasName(c, Pin(c.bbs[b].inst, x))}},
                   {<<pn, NamesOf(c, FoSet(c, Idx(c, Pin(c.bbs[b].inst, pn))))>> : pn \in {x \in Range(c.bbs[b].outs) : HasName(c, Pin(c.bbs[b].inst, x))}}>>
                 : b \in 1..Len(c.bbs) }
 AgreeClauses(a, b, checkName) ==
@@ -157,9 +160,6 @@ Judge_bench_roundtrip(e) ==
 
 (* fast parser vs full parser on the same text: e.cf, e.cs, e.excf, e.excs.  Identical graphs after renaming the
    shared constant nodes tie0 <-> tie_0, tie1 <-> tie_1; and the agreement clauses above. *)
-\* the shared constant nodes are identified by what they are, not by their names
-TieRen(c, nm) == LET t == c.ty[Idx(c, nm)] IN
-                 IF t \in Consts /\ HasPrefix(nm, "tie") THEN "<const " \o t \o ">" ELSE nm
 RenView(c) == [nodes |-> {TieRen(c, x) : x \in NameSet(c)},
                ty    |-> {<<TieRen(c, c.names[i]), c.ty[i]>> : i \in 1..c.n},
                out   |-> {TieRen(c, x) : x \in OutputNames(c)},
